@@ -395,6 +395,13 @@ func main() {
 	kind := flag.String("kind", "", "entry point (one)")
 	hexin := flag.String("hex", "", "input bytes (one)")
 	flag.Parse()
+	// panics of the code under test are recovered inside observe()/runIDBind(); anything arriving here is the driver's own bug
+	defer func() {
+		if r := recover(); r != nil {
+			fmt.Printf("HARNESS-ERROR panic in the driver itself: %v\n%s\n", r, debug.Stack())
+			os.Exit(3)
+		}
+	}()
 	if err := os.MkdirAll(*out, 0o755); err != nil {
 		fatal("mkdir: %v", err)
 	}
